@@ -4,6 +4,7 @@ import BM.Spec.Oracles
 import BM.Proofs.PassInv
 import BM.Proofs.Prov
 import BM.Proofs.UrlScheme
+import BM.Proofs.UrlRelative
 /-
   C03: URL attributes carry only allowed schemes (or allowed relative URLs).
 
@@ -183,7 +184,7 @@ theorem C03_bytes (p : Policy) (hp : Plain p.ensureInit) (hreq : p.ensureInit.re
     registered) or matched by a scheme pattern — or it is the printed form of a scheme-less URL,
     relative URLs being allowed.  In particular no value with a scheme the policy does not accept
     (javascript:, vbscript:, data:, … however the input spelled, padded or entity-encoded it) comes
-    out.  Not proved: that a browser also reads the scheme-less printed form as relative. -/
+    out.  (The relative half is `C03_browser` below.) -/
 theorem C03_browser_scheme (p : Policy) (hreq : p.requireParseableURLs = true) (raw v : Bytes)
     (h : p.validURL raw = some v) :
     (∃ s, Spec.classifyUrl v = .scheme s ∧ s ≠ [] ∧
@@ -199,10 +200,57 @@ theorem C03_browser_scheme (p : Policy) (hreq : p.requireParseableURLs = true) (
       · exact .inr hre
   · exact .inr ⟨u, hv, he, hrel, by rw [hv]; exact hnonempty⟩
 
+/-- what a browser makes of a URL value under policy `p`: by the WHATWG scheme-state rules it has
+    a scheme the policy accepts (allowlisted, or matched by a scheme pattern), or it is a non-empty
+    relative reference and relative URLs are allowed -/
+def BrowserOK (p : Policy) (v : Bytes) : Prop :=
+  (∃ s, Spec.classifyUrl v = .scheme s ∧ s ≠ [] ∧
+    ((∃ checks, p.allowURLSchemes.get? s = some checks) ∨ p.allowURLSchemeRegexps.any (·.test s) = true)) ∨
+  (Spec.classifyUrl v = .relative ∧ p.allowRelativeURLs = true ∧ v ≠ [])
+
+/-- **C03, both halves of the browser bridge**: every value `validURL` returns is, for a browser,
+    a URL whose scheme the policy accepts or — only when relative URLs are allowed — a relative
+    reference.  The classification a browser makes (after stripping C0/space and deleting tab and
+    newlines) is exactly the one net/url made on the input (`Url.printed_class`). -/
+theorem C03_browser (p : Policy) (hreq : p.requireParseableURLs = true) (raw v : Bytes)
+    (h : p.validURL raw = some v) : BrowserOK p v := by
+  obtain ⟨raw', u, hp, hv, hacc⟩ := validURL_sound p raw v hreq h
+  rcases hacc with ⟨hne, hs⟩ | ⟨he, hrel, hnonempty⟩
+  · left
+    refine ⟨u.scheme, ?_, hne, ?_⟩
+    · rw [hv]; exact Url.printed_scheme_is_browser_scheme raw' u hp hne
+    · rcases hs with ⟨checks, hget, _⟩ | ⟨_, hre⟩
+      · exact .inl ⟨checks, hget⟩
+      · exact .inr hre
+  · right
+    refine ⟨?_, hrel, by rw [hv]; exact hnonempty⟩
+    rw [hv]; exact Url.printed_relative_is_browser_relative raw' u hp he
+
+/-- **C03 at byte level, as a browser reads it** (plain policies with URL checking, no src
+    rewriter): every href / cite / src at a checked position on a tag re-read from the returned
+    bytes is `BrowserOK` — no javascript:, data:, vbscript: … URL unless the policy accepts that
+    scheme, and no relative URL unless relative URLs are allowed. -/
+theorem C03_bytes_browser (p : Policy) (hp : Plain p.ensureInit) (hreq : p.ensureInit.requireParseableURLs = true)
+    (hnr : p.ensureInit.srcRewriter = none) (input : Bytes) :
+    ∀ k ∈ tokenize (p.sanitizeCore input), (k.tt = .start ∨ k.tt = .selfClosing) →
+      ∀ b ∈ k.attrs, Spec.isUrlPosition k.data b.key = true → BrowserOK p.ensureInit b.val := by
+  intro k hk htt b hb hpos
+  obtain ⟨raw, hv⟩ := C03_bytes p hp hreq input k hk htt b hb hpos (fun _ => hnr)
+  exact C03_browser _ hreq raw b.val hv
+
 example :
     let p : Policy := { initialized := true, requireParseableURLs := true, allowURLSchemes := [(b!"https", [])] }
     p.validURL b!" HTTPS://Example.com/a b" = none ∧
     p.validURL b!" HTTPS://Example.com/a%20b " = some b!"https://Example.com/a%20b" ∧
     p.validURL b!"javascript:alert(1)" = none ∧ p.validURL b!"/rel" = none := by decide
+
+/-- non-vacuity of the relative half: with relative URLs allowed, `a:b/c` spelled with an encoded
+    colon is accepted, printed with `./` in front, and relative for the classifier -/
+example :
+    let p : Policy := { initialized := true, requireParseableURLs := true, allowRelativeURLs := true }
+    p.validURL b!"./javascript:alert(1)" = some b!"./javascript:alert(1)" ∧
+    Spec.classifyUrl b!"./javascript:alert(1)" = .relative ∧
+    p.validURL b!"javascript:alert(1)" = none ∧
+    p.validURL b!" x/a:b?q#f " = some b!"x/a:b?q#f" ∧ Spec.classifyUrl b!"x/a:b?q#f" = .relative := by decide
 
 end BM.Props
